@@ -15,6 +15,9 @@
 //	syncfail   registers, is configured, fails Synchronize
 //	die<k>     like ok, but exits inside the handler of its k-th lifecycle event (no reply)
 //	dieafter<k> like ok, but exits shortly after having answered its k-th lifecycle event
+//	lingerafter<k> like ok, but shortly after having answered its k-th lifecycle event it
+//	           closes its connection (stub.Stop), appends a "ConnClosed" line to the event
+//	           log so that the harness knows, and keeps running
 //	hang<k>    like ok, but never returns from the handler of its k-th lifecycle event
 //
 // Every handler invocation appends one JSON line to the shared O_APPEND log
@@ -195,6 +198,7 @@ var (
 	logMu   sync.Mutex
 	logFD   = -1
 	evCount int // lifecycle events seen (under logMu)
+	theStub stub.Stub
 )
 
 func appendLine(l Line) {
@@ -256,6 +260,14 @@ func (p *plugin) lifecycle(ev, tag string) {
 			go func() {
 				time.Sleep(20 * time.Millisecond)
 				os.Exit(4)
+			}()
+		case "lingerafter":
+			go func() {
+				time.Sleep(20 * time.Millisecond)
+				theStub.Stop() // closes the only copy of the pre-connected socket
+				logMu.Lock()
+				appendLine(Line{Ev: "ConnClosed"})
+				logMu.Unlock()
 			}()
 		}
 	}
@@ -424,6 +436,7 @@ func main() {
 	if err != nil {
 		os.Exit(94)
 	}
+	theStub = s
 	if err := s.Run(context.Background()); err != nil {
 		logMu.Lock()
 		appendLine(Line{Ev: "RunError", Tag: err.Error()})
